@@ -37,6 +37,23 @@ func RunCase(c *Case) outcome {
 	return outcome{err: fmt.Errorf("harness: unknown kind %q", c.Kind)}
 }
 
+// stableTB gives rapid a failure message that does not depend on the schedule.
+// Which Filter call exposes a defect first (and with which entries) depends on
+// how far the logger goroutine lags behind, so the detailed message differs
+// between two runs of the same case; rapid only shrinks (and does not call the
+// test flaky) when a re-run fails with the same message. hx.Failf has already
+// recorded the detailed message with the case when it calls Fatalf here.
+type stableTB struct {
+	t    *rapid.T
+	test string
+}
+
+func (s stableTB) Helper() {}
+func (s stableTB) Fatalf(format string, args ...interface{}) {
+	s.t.Logf(format, args...)
+	s.t.Fatalf("C20 %s: logger oracle violated (details above and in the replay file)", s.test)
+}
+
 func sampleOf(c *Case) interface{} {
 	s := *c
 	if len(s.Logs) > 120 {
@@ -276,7 +293,7 @@ func TestPropSeq(t *testing.T) {
 		hx.Journal("seq", c)
 		o := RunCase(c)
 		if o.err != nil {
-			hx.Failf(t, "seq", c, "%v", o.err)
+			hx.Failf(stableTB{t, "seq"}, "seq", c, "%v", o.err)
 		}
 		if o.inconclusive != "" {
 			t.Skip(o.inconclusive)
@@ -347,7 +364,7 @@ func TestPropConc(t *testing.T) {
 		hx.Journal("conc", c)
 		o := RunCase(c)
 		if o.err != nil {
-			hx.Failf(t, "conc", c, "%v", o.err)
+			hx.Failf(stableTB{t, "conc"}, "conc", c, "%v", o.err)
 		}
 		if o.inconclusive != "" {
 			t.Skip(o.inconclusive)
